@@ -1,0 +1,59 @@
+//! Verification hooks (cargo feature `verif-hooks`, off by default).
+//!
+//! A thread-local, append-only event log. Nothing is recorded unless `start()` has been
+//! called on the current thread; `take()` returns the events recorded since then and stops
+//! recording. The log is written at pipeline-stage boundaries only and performs no I/O.
+
+use std::cell::RefCell;
+
+#[derive(Debug, Clone, PartialEq)]
+pub enum Event {
+    /// One per element visited by the remover.
+    Decision {
+        /// byte offset of the opening tag
+        open_start: usize,
+        /// byte offset of the end of the closing tag
+        close_end: usize,
+        name: String,
+        is_skip: bool,
+        /// verdict of the evaluator registered for `name` (None: no evaluator registered)
+        evaluator: Option<bool>,
+        /// what the remover actually kept for this element: (range, pair range, is_removal)
+        outcome: Option<((usize, usize), Option<(usize, usize)>, bool)>,
+    },
+    /// Markers applied by `clean` before whitespace tidying.
+    CleanMarkers {
+        markers: Vec<(usize, usize, Option<usize>)>,
+        source_len: usize,
+        removed_len: usize,
+    },
+    /// Seam positions handed to the formatter.
+    RemovedPos { positions: Vec<(usize, Option<usize>)> },
+    /// Final ranges deleted by the formatter (after merging).
+    FormatRanges { ranges: Vec<(usize, usize)> },
+    /// Markers rendered by `list` (all = false) / `list_all` (all = true).
+    ListMarkers {
+        all: bool,
+        markers: Vec<(usize, usize, Option<usize>, bool)>,
+    },
+}
+
+thread_local! {
+    static LOG: RefCell<Option<Vec<Event>>> = const { RefCell::new(None) };
+}
+
+pub fn start() {
+    LOG.with(|l| *l.borrow_mut() = Some(Vec::new()));
+}
+
+pub fn emit<F: FnOnce() -> Event>(f: F) {
+    LOG.with(|l| {
+        if let Some(v) = l.borrow_mut().as_mut() {
+            v.push(f());
+        }
+    });
+}
+
+pub fn take() -> Vec<Event> {
+    LOG.with(|l| l.borrow_mut().take().unwrap_or_default())
+}
